@@ -30,6 +30,8 @@ def check(ctx):
     baulk(ctx, P, iters)
     c02.rearm(ctx, P, iters)
     jockey_default(ctx, P)
+    from . import c01
+    c01.no_touch_after_handover(ctx, P, views, iters)
     ctx.assume("baulking functions return a probability in [0, 1]; distributions return non-negative patience")
 
 
